@@ -239,7 +239,7 @@ func TestVerifC13_fourq(t *testing.T) {
 			r.Distinct("base", s.Name)
 		}
 	})
-	r.Sample(map[string]string{"op": "ScalarMult", "k": "N-1", "P": pts[len(pts)-1].name})
+	r.Sample(map[string]string{"op": "ScalarMult", "k": "N-1", "k_le": verifmc.FullHex(fpx.ToLE(new(big.Int).Sub(N, big.NewInt(1)), Size)), "P": pts[len(pts)-1].name, "P_enc": verifmc.FullHex(ref.MarshalFourQ(pts[len(pts)-1].p))})
 
 	r.RequireCounter("add_P_eq_Q", 5)
 	r.RequireCounter("add_P_eq_negQ", 5)
